@@ -1,7 +1,8 @@
 (* C14 — non-vacuity: the hypotheses of each theorem are met by concrete, non-trivial data. *)
 From GL Require Import Common.Bytes Pm.Class Pm.PmTypes Pm.RefMatch Pm.GoParse Pm.GoCompile Pm.GoVM
      Pm.Find Pm.Gsub Pm.Flat Pm.ClassFacts Pm.FindFacts Pm.GsubFacts Pm.ParseFacts Pm.CompileFacts
-     Pm.VMFacts Pm.RefFacts Pm.SetFacts Pm.PmRefine Pm.PrintFacts Pm.FindRefine Pm.ReplFacts.
+     Pm.VMFacts Pm.RefFacts Pm.SetFacts Pm.PmRefine Pm.PrintFacts Pm.FindRefine Pm.ReplFacts
+     Pm.BadRef Pm.ErrRefine.
 From Coq Require Import Lia.
 
 Example class_agree_ex : go_single_matches 97 120 = true /\ ref_match_class 120 97 = true
@@ -101,3 +102,29 @@ Proof.
   - inversion Hj; subst. cbn. repeat split; reflexivity.
   - pose proof (zth_some_range _ _ _ Hj) as R. change (len [(1, 1)]) with 1 in R. lia.
 Qed.
+
+(* bad_backref_is_error / vm_refines_ref_strict / find_refines_ref_total: forward references.
+   "(a)%2(b)" on "xab": the attempt at 0 fails before the reference, the attempt at 1 reaches it:
+   both sides raise the error there; on "xb" the reference is never reached: nil on both sides.
+   "%1(a)": error at the very first attempt. *)
+Definition ex_fwd : seqpat :=
+  mkSeq false false [PCap [PSingle (CChar 97)]; PNumber 2; PCap [PSingle (CChar 98)]].
+Definition ex_fwd1 : seqpat := mkSeq false false [PNumber 1; PCap [PSingle (CChar 97)]].
+Example bad_backref_ex :
+  let pb := [40;97;41;37;50;40;98;41] in
+  let s := [120;97;98] in
+  seq_okb ex_fwd = true /\ print_seq ex_fwd = Some pb /\ goParse pb = ParseOk ex_fwd /\
+  backrefs_ok ex_fwd = true /\ is_bytes s = true /\
+  1 + Z.of_nat (vm_fuel s (goCompile ex_fwd)) <= maxRecursionLevel /\ 0 < len pb /\
+  fm s false (flatten_seq (patterns ex_fwd)) 0 [] [] = FFail /\
+  fm s false (flatten_seq (patterns ex_fwd)) 1 [] [] = FBad /\
+  goVM s (goCompile ex_fwd) (vm_fuel s (goCompile ex_fwd)) 0 1 = VErr /\
+  ref_match pb s 1 0 = RErr /\
+  ref_find s pb 1 = Err /\ strFind s pb (Some 1) = Err /\
+  ref_smatch s pb 1 = Err /\ strMatch s pb (Some 1) = Err /\
+  ref_find [120;98] pb 1 = Ok [VNil] /\ strFind [120;98] pb (Some 1) = Ok [VNil] /\
+  goParse [37;49;40;97;41] = ParseOk ex_fwd1 /\ backrefs_ok ex_fwd1 = true /\
+  ref_find [97] [37;49;40;97;41] 1 = Err /\ strFind [97] [37;49;40;97;41] (Some 1) = Err.
+Proof. vm_compute. repeat split; congruence. Qed.
+Example nums_pos_ex : nums_pos (flatten_seq (patterns ex_fwd)).
+Proof. intros n [H|[H|[H|[H|[H|[H|[H|[]]]]]]]]; inversion H; lia. Qed.
